@@ -2,7 +2,7 @@
 //
 // E3: the decision table (enforcement map x trust x identity x expiry x
 // certificate time x revocation answer x plugin situation x critical
-// attributes x format), enumerated by number of deviations from the all-valid
+// attributes x timestamping configuration of the statement x format), enumerated by number of deviations from the all-valid
 // cell (quick: <=3, thorough: full product), every cell run through the real
 // verifier with scripted collaborators and compared with the reference
 // decision function of DESIGN.md appendix A.1; plus the monotonicity relation
@@ -104,8 +104,17 @@ var (
 	trustNames = []string{"anchor-found", "anchor-not-in-store", "store-load-error", "two-stores:anchor-found+load-error", "two-stores:load-error+anchor-found", "only-a-store-of-the-other-type-listed(holding-the-anchor)", "store-loads-but-is-empty"}
 	identNames = []string{"wildcard", "pinned-match", "pinned-mismatch"}
 	expNames   = []string{"no-expiry", "expiry-future", "expiry-past"}
-	ctimeNames = []string{"chain-valid-now", "leaf-expired"}
-	revNames   = []string{"rev-ok", "rev-one-revoked", "rev-one-unknown", "rev-validator-error"}
+	// certificate time, both sides of the window. notary.x509 (no timestamp): the leaf is expired / not yet valid at
+	// verification time; signingAuthority: the signed time lies before / after the leaf's validity.
+	ctimeNames = []string{"chain-valid-now", "leaf-expired", "leaf-not-yet-valid"}
+	// revocation answers per certificate (leaf, intermediate, root): the position of the certificate that is not OK
+	// varies (first / middle / last), alone and together with a differently failing one, and a non-revokable root
+	revNames = []string{"rev-ok", "rev-one-revoked", "rev-one-unknown", "rev-validator-error",
+		"rev-intermediate-unknown(leaf-ok,root-non-revokable)", "rev-root-unknown(others-ok)", "rev-leaf-revoked(others-ok)", "rev-leaf-unknown-and-root-revoked"}
+	// how the statement is configured for timestamping; the signatures carry no timestamp, and in all three shapes the
+	// certificate-time dimension alone decides the authentic-timestamp validation (no tsa store: nothing to verify
+	// against; afterCertExpiry: a timestamp is only looked for once a certificate has expired - and then there is none)
+	tspolNames = []string{"no-tsa-store", "tsa-store-listed-and-verifyTimestamp-afterCertExpiry", "no-tsa-store-but-verifyTimestamp-afterCertExpiry"}
 	critNames  = []string{"crit-none", "crit-processed-by-plugin", "crit-unprocessed", "crit-integer-label"}
 )
 
@@ -119,6 +128,7 @@ type cell struct {
 	Rev    int `json:"rev"`
 	Plug   int `json:"plug"`
 	Crit   int `json:"crit"`
+	TSPol  int `json:"tspol"`
 	// Prior 1: the same verifier instance (same collaborators) verified the all-valid signature of the same
 	// scheme and format immediately before; the judged verification must behave as on a fresh verifier.
 	// Prior 2: the same verifier instance first verified a signature with the same plugin / critical attributes
@@ -133,13 +143,13 @@ type cell struct {
 }
 
 func (c cell) String(ps []plugSit) string {
-	return fmt.Sprintf("%s %s %s %s %s %s %s plugin=%s %s", []string{"x509", "signingAuthority"}[c.Scheme], []string{"jws", "cose"}[c.Format], trustNames[c.Trust], identNames[c.Ident], expNames[c.Exp], ctimeNames[c.CTime], revNames[c.Rev], ps[c.Plug].Label, critNames[c.Crit])
+	return fmt.Sprintf("%s %s %s %s %s %s %s plugin=%s %s %s", []string{"x509", "signingAuthority"}[c.Scheme], []string{"jws", "cose"}[c.Format], trustNames[c.Trust], identNames[c.Ident], expNames[c.Exp], ctimeNames[c.CTime], revNames[c.Rev], ps[c.Plug].Label, critNames[c.Crit], tspolNames[c.TSPol])
 }
 
 // ---- world ----
 
 type world struct {
-	good, expired, other *pki.Chain
+	good, expired, future, other *pki.Chain
 	desc                 ocispec.Descriptor
 	envs                 sync.Map
 	sits                 []plugSit
@@ -151,6 +161,8 @@ func newWorld() *world {
 	w := &world{sits: plugSituations(), signTime: now.Add(-48 * time.Hour)}
 	w.good = pki.NewChain(pki.ChainOpts{Len: 3, Prefix: "good"})
 	w.expired = pki.NewChain(pki.ChainOpts{Len: 3, Prefix: "good", LeafIdx: 2, ReuseCAs: w.good.Certs[1:], Leaf: &pki.Tmpl{Subject: pki.Name("good leaf"), NotBefore: now.Add(-30 * 24 * time.Hour), NotAfter: now.Add(-24 * time.Hour)}})
+	// same subject, issuer and key as the expired leaf; only the window differs
+	w.future = pki.NewChain(pki.ChainOpts{Len: 3, Prefix: "good", LeafIdx: 2, ReuseCAs: w.good.Certs[1:], Leaf: &pki.Tmpl{Subject: pki.Name("good leaf"), NotBefore: now.Add(24 * time.Hour), NotAfter: now.Add(300 * 24 * time.Hour)}})
 	w.other = pki.NewChain(pki.ChainOpts{Len: 2, Prefix: "other", CAIdx: 3, LeafIdx: 3})
 	w.desc = ocispec.Descriptor{MediaType: "application/vnd.oci.image.manifest.v1+json", Digest: digest.FromString("c02"), Size: 3}
 	return w
@@ -170,12 +182,15 @@ func (w *world) envelope(c cell) []byte {
 	}
 	ch := w.good
 	signTime := w.signTime
-	if c.CTime == 1 {
-		if c.Scheme == 0 {
-			ch = w.expired // notary.x509 without tsa store: the chain must be valid at verification time
-		} else {
-			signTime = time.Now().Add(-60 * 24 * time.Hour) // signing authority: the signed time lies before the leaf's validity
-		}
+	switch {
+	case c.CTime == 1 && c.Scheme == 0:
+		ch = w.expired // notary.x509 without timestamp: the chain must be valid at verification time
+	case c.CTime == 1:
+		signTime = time.Now().Add(-60 * 24 * time.Hour) // signing authority: the signed time lies before the leaf's validity
+	case c.CTime == 2 && c.Scheme == 0:
+		ch = w.future // the leaf becomes valid tomorrow
+	case c.CTime == 2:
+		ch, signTime = w.expired, time.Now().Add(-12*time.Hour) // signing authority: signed after the leaf's validity ended
 	}
 	sp := forge.Spec{Format: forge.Formats[c.Format], Chain: ch.X509(), Key: ch.Leaf().Key, Payload: forge.PayloadFor(w.desc), SigningTime: signTime, Scheme: []string{forge.SchemeX509, forge.SchemeSA}[c.Scheme]}
 	switch c.Exp {
@@ -268,9 +283,9 @@ func decide(m map[vt.T]vt.A, c cell, s plugSit) verdict {
 			return reject("expiry enforced, expired")
 		}
 	}
-	if c.CTime == 1 {
+	if c.CTime != 0 { // either side of the window; independent of how the statement is configured for timestamping (see tspolNames)
 		if fail(tTS) {
-			return reject("authentic timestamp enforced, leaf expired")
+			return reject("authentic timestamp enforced, " + ctimeNames[c.CTime])
 		}
 	}
 	if m[tRev] != "skip" && !caps[REV] {
@@ -321,7 +336,10 @@ func decide(m map[vt.T]vt.A, c cell, s plugSit) verdict {
 		// nothing processed the critical attribute
 		v.Accept = false
 		v.Why = "critical attribute that nothing processes"
-		if s.Demanded {
+		// F-02b (KNOWN_FINDINGS.txt) is about attributes the named plugin WOULD have been handed had it been executed
+		// (string keys). An attribute that can not be handed to any plugin (integer label) is refused by the tree in
+		// this situation as well, so it keeps the plain key and is judged.
+		if s.Demanded && c.Crit != 3 {
 			v.KnownClass = "plugin-named-but-not-executed"
 		}
 		return v
@@ -354,6 +372,14 @@ func revResults(kind int) ([]result.Result, error) {
 		return []result.Result{result.ResultUnknown, result.ResultOK, result.ResultOK}, nil
 	case 3:
 		return nil, errors.New("mock: validator failed")
+	case 4:
+		return []result.Result{result.ResultOK, result.ResultUnknown, result.ResultNonRevokable}, nil
+	case 5:
+		return []result.Result{result.ResultOK, result.ResultOK, result.ResultUnknown}, nil
+	case 6:
+		return []result.Result{result.ResultRevoked, result.ResultOK, result.ResultOK}, nil
+	case 7:
+		return []result.Result{result.ResultUnknown, result.ResultOK, result.ResultRevoked}, nil
 	}
 	return []result.Result{result.ResultOK, result.ResultOK, result.ResultOK}, nil
 }
@@ -392,7 +418,16 @@ func (w *world) run(lv vt.Level, c cell) observation {
 		ids = []string{"x509.subject:C=US,ST=WA,O=Other", "x509.subject:C=US,ST=WA,O=Verif,CN=somebody else"}
 	}
 	rv := mocks.Fixed(revResults(c.Rev))
-	opts := verifier.VerifierOptions{OCITrustPolicy: vt.OCIDoc(lv.SV(), listed, ids), RevocationCodeSigningValidator: rv}
+	sv := lv.SV()
+	switch c.TSPol {
+	case 1:
+		listed = append(listed, "tsa:t")
+		ts.Put("tsa", "t", w.other.Root().Cert)
+		sv.VerifyTimestamp = trustpolicy.OptionAfterCertExpiry
+	case 2:
+		sv.VerifyTimestamp = trustpolicy.OptionAfterCertExpiry
+	}
+	opts := verifier.VerifierOptions{OCITrustPolicy: vt.OCIDoc(sv, listed, ids), RevocationCodeSigningValidator: rv}
 	var plug *mocks.VerifyPlugin
 	var mgr *mocks.Manager
 	if !s.ManagerNil {
@@ -437,7 +472,7 @@ func (w *world) run(lv vt.Level, c cell) observation {
 	if c.Prior == 2 {
 		// phase 1: good answers everywhere
 		savedStores, savedErrs, savedRes := ts.Stores, ts.Errs, rv.Results
-		ts.Stores = map[string][]*x509.Certificate{storeType + ":s": {w.good.Root().Cert}, storeType + ":broken": {w.good.Root().Cert}}
+		ts.Stores = map[string][]*x509.Certificate{storeType + ":s": {w.good.Root().Cert}, storeType + ":broken": {w.good.Root().Cert}, "tsa:t": {w.other.Root().Cert}}
 		ts.Errs = map[string]error{}
 		rv.Results = mocks.AllOK().Results
 		var savedPlug mocks.VerifyPlugin
@@ -633,8 +668,8 @@ func classify(c cell, s plugSit) string {
 	if c.Exp == 2 {
 		p = append(p, expNames[2])
 	}
-	if c.CTime == 1 {
-		p = append(p, ctimeNames[1])
+	if c.CTime != 0 {
+		p = append(p, ctimeNames[c.CTime])
 	}
 	if c.Rev != 0 {
 		p = append(p, revNames[c.Rev])
@@ -644,6 +679,9 @@ func classify(c cell, s plugSit) string {
 	}
 	if c.Crit != 0 {
 		p = append(p, critNames[c.Crit])
+	}
+	if c.TSPol != 0 {
+		p = append(p, tspolNames[c.TSPol])
 	}
 	if len(p) == 0 {
 		return "all-valid"
@@ -659,7 +697,7 @@ type replayCase struct {
 
 func main() {
 	r := hx.New("C02")
-	r.Rule = "decision-table cells (trust x identity x expiry x certificate time x revocation answer x plugin situation x critical attribute x format) are enumerated by number of deviations from the all-valid cell, each under all 24 enforcement maps; every (cell, map) is one real verifier.Verify call; non-trivial = distinct (cell, map) pairs whose verdict needed at least one deviation (i.e. not the all-valid cell)"
+	r.Rule = "decision-table cells (trust x identity x expiry x certificate time x revocation answer x plugin situation x critical attribute x timestamping configuration of the statement x format) are enumerated by number of deviations from the all-valid cell, each under all 24 enforcement maps; every (cell, map) is one real verifier.Verify call; non-trivial = distinct (cell, map) pairs whose verdict needed at least one deviation (i.e. not the all-valid cell)"
 	r.Assumptions = []string{"the collaborators (trust store, revocation validator, plugin manager, plugin) answer as scripted by lib/mocks", "reference decision function: DESIGN.md appendix A.1 (harness/c02 decide())", "semver order of the 5 plugin versions is hand-written"}
 	w := newWorld()
 	levels := vt.Levels24()
@@ -684,7 +722,7 @@ func main() {
 		r.Finish()
 	}
 
-	sizes := []int{2, 2, len(trustNames), 3, 3, 2, 4, len(w.sits), 4}
+	sizes := []int{2, 2, len(trustNames), len(identNames), len(expNames), len(ctimeNames), len(revNames), len(w.sits), len(critNames), len(tspolNames)}
 	maxDev := 2
 	if r.Thorough() {
 		maxDev = len(sizes)
@@ -697,7 +735,7 @@ func main() {
 	var rec func(i int, cur []int, dev int)
 	rec = func(i int, cur []int, dev int) {
 		if i == len(sizes) {
-			c := cell{Scheme: cur[0], Format: cur[1], Trust: cur[2], Ident: cur[3], Exp: cur[4], CTime: cur[5], Rev: cur[6], Plug: cur[7], Crit: cur[8]}
+			c := cell{Scheme: cur[0], Format: cur[1], Trust: cur[2], Ident: cur[3], Exp: cur[4], CTime: cur[5], Rev: cur[6], Plug: cur[7], Crit: cur[8], TSPol: cur[9]}
 			if c.Crit == 3 && c.Format == 0 {
 				return // integer labels exist in COSE only
 			}
@@ -718,7 +756,7 @@ func main() {
 	rec(0, nil, 0)
 	devOf := func(c cell) int {
 		n := 0
-		for _, v := range []int{c.Trust, c.Ident, c.Exp, c.CTime, c.Rev, c.Plug, c.Crit} {
+		for _, v := range []int{c.Trust, c.Ident, c.Exp, c.CTime, c.Rev, c.Plug, c.Crit, c.TSPol} {
 			if v != 0 {
 				n++
 			}
